@@ -943,3 +943,45 @@ pub fn check(tier: &str) -> i32 {
     });
     if violations.is_empty() { 0 } else { 1 }
 }
+
+
+/// `verif c01replay <replay file> [fine|coarse]`: re-executes the history of a finding and
+/// prints what the recovery from its crash point (or the in-history observation) shows.
+pub fn replay(path: &str, mode: Option<&str>) -> i32 {
+    let v: serde_json::Value = serde_json::from_str(&std::fs::read_to_string(path).expect("replay file")).expect("json");
+    let fv = if v.get("finding").is_some() { v["finding"].clone() } else { v["crash_finding"].clone() };
+    let f: Finding = serde_json::from_value(fv).expect("finding");
+    let snap = match mode {
+        Some("fine") => SnapMode::Fine,
+        Some("off") => SnapMode::Off,
+        _ => {
+            if f.crash.as_ref().map_or(false, |c| c.kind.starts_with("Write")) { SnapMode::Fine } else { SnapMode::Coarse }
+        }
+    };
+    let scratch = Scratch::new(&format!("c01replay-{}", std::process::id()));
+    let memo = Mutex::new(HashSet::new());
+    let stats = Mutex::new(Stats::default());
+    let mon = Mutex::new(Vec::new());
+    let found = run_history(&scratch.dir.join("h"), &f.history, &f.cfg, snap, &memo, &stats, &mon);
+    println!("history {:?}: {} findings in this execution", f.history, found.len());
+    let mut hit = false;
+    for g in &found {
+        let same = match (&g.crash, &f.crash) {
+            (Some(a), Some(b)) => a.kind == b.kind && a.path == b.path && g.op == f.op,
+            (None, None) => g.life == f.life && g.op == f.op,
+            _ => false,
+        };
+        if same {
+            hit = true;
+            println!("life {} op {} crash {:?}", g.life, g.op, g.crash);
+            println!("  known {:?} violation {:?}", g.known, g.violation);
+            for d in g.discs.iter().take(12) {
+                println!("  {}: {}", d.class, d.detail);
+            }
+        }
+    }
+    if !hit {
+        println!("the recorded crash point / observation shows no discrepancy in this execution");
+    }
+    if hit { 1 } else { 0 }
+}
